@@ -130,7 +130,9 @@ async fn run_wire(wt: &WireTalk, rep: &mut CaseReport) -> Option<(String, String
     }
     let talkers = if wt.crowded { 1 } else { np as usize };
     for j in 0..n {
-        act(&mut w, &Op::Submit { from: 1 + (j % talkers) as u8, to: 0, body: Body::Talk(j as u8), with_record: true });
+        // (every other request has a one-byte payload >= 0x80 - the answer echoes it - e.g. a status code)
+        let n_body = if j % 2 == 1 { 133u8.wrapping_add(((j as u8) % 17).wrapping_mul(7)) } else { j as u8 };
+        act(&mut w, &Op::Submit { from: 1 + (j % talkers) as u8, to: 0, body: Body::Talk(n_body), with_record: true });
         w.settle().await;
         w.step += 1;
         deliver_all(&mut w).await;
@@ -162,7 +164,9 @@ async fn run_wire(wt: &WireTalk, rep: &mut CaseReport) -> Option<(String, String
         deliver_all(&mut w).await;
         held.extend(std::mem::take(&mut w.nodes[0].held_req));
     }
-    match wt.interlude % 3 {
+    // (a crowded cache has no room for the extra session of interlude 1: that would evict the
+    // requester's session by the LRU rule itself, and an answer needs that session)
+    match if wt.crowded { 0 } else { wt.interlude % 3 } {
         1 => {
             use crate::engines::wire::{AttachedRecord, EphKey, ForgedBody, Signer, XSel};
             act(&mut w, &Op::Probe { x: XSel::Peer(0), z: 0 });
@@ -517,7 +521,7 @@ impl Property for C20 {
             known: 0,
             moved: 0,
             dual: false,
-            wire: Some(WireTalk { n_req, two_peers, newest_first, ban_before_answer, nat: nat && !crowded, interlude, crowded }),
+            wire: Some(WireTalk { n_req, two_peers, newest_first, ban_before_answer, nat: nat && !crowded, interlude: if crowded { 0 } else { interlude }, crowded }),
         });
         prop_oneof![150 => svc, 1 => companion].boxed()
     }
